@@ -806,6 +806,25 @@ func runSession(t *testing.T, cfg *sessCfg, job *sessJob, rng *mrand.Rand, sched
 			a := sched[step]
 			c = act{}
 			c.ev, _ = a["ev"].(string)
+			if c.ev == "DeliverAll" { // macro: deliver everything in flight, oldest first, until the network is empty
+				for guard := 0; len(flight) > 0 && guard < 200; guard++ {
+					do(act{ev: "Deliver", i: 0})
+				}
+
+				continue
+			}
+			if c.ev == "Rounds" { // macro: n rounds of tick A, tick B, deliver all
+				n, _ := a["n"].(float64)
+				for r := 0; r < int(n); r++ {
+					do(act{ev: "Tick", ag: "A"})
+					do(act{ev: "Tick", ag: "B"})
+					for guard := 0; len(flight) > 0 && guard < 200; guard++ {
+						do(act{ev: "Deliver", i: 0})
+					}
+				}
+
+				continue
+			}
 			if v, ok := a["ag"].(string); ok {
 				c.ag = v
 			}
